@@ -81,9 +81,17 @@ def pick_stmt(rng, cls, n):
     return rng.choice(sorted(names))
 
 
-def concretize(rng, r, peers_in_view):
-    """spec request [ep, mode, fmt, st{c,n}, tamper] -> harness step"""
-    name = pick_stmt(rng, r["st"]["c"], r["st"]["n"])
+def concretize(rng, r, peers_in_view, sticky=None):
+    """spec request [ep, mode, fmt, st{c,n}, tamper] -> harness step.  sticky: per-history dict so that one history keeps
+    re-issuing the SAME statement text for a statement class (a node that remembers anything per statement text across
+    membership / load changes is only visible when the text repeats)"""
+    if sticky is None:
+        name = pick_stmt(rng, r["st"]["c"], r["st"]["n"])
+    else:
+        key = (r["st"]["c"], r["st"]["n"])
+        if key not in sticky:
+            sticky[key] = pick_stmt(rng, r["st"]["c"], r["st"]["n"])
+        name = sticky[key]
     cls, sql, ordered, _ = CATALOG[name]
     ep = r["ep"]
     step = {"a": "Req", "ep": ep, "mode": r["mode"], "fmt": r["fmt"], "cls": cls, "stmt": name, "sql": sql,
@@ -203,25 +211,64 @@ def histories_from_states(ctx, cases, reqs, per_state, rng, dies_prob=0.5):
     return hs
 
 
+def flip_histories(cases, reqs, rng, n):
+    """SAME statement text before and after the membership changes under it: on a loaded, resolved node with a peer up,
+    an auto request for a distributable statement, then every up peer is probed down (the request re-issued verbatim after
+    each), then the live ones are probed up again (re-issued again).  The decision must follow the view at each request."""
+    hs = []
+    ok = [c for c in cases if c["s"]["load"] == "loaded" and not c["s"]["draining"] and c["s"]["resolved"] and "up" in c["s"]["view"]]
+    cand = [r for r in reqs if r["ep"] in ("sql", "both") and r["mode"] == "auto" and r["fmt"] != "bad" and r["st"]["c"] in ("scatter", "gather")
+            and r.get("tamper", "none") == "none"]
+    if not ok or not cand:
+        return hs
+    for case in rng.sample(ok, min(n, len(ok))):
+        st = case["s"]
+        x = concretize(rng, rng.choice(cand), True)
+        x["cnt"] = 1 if x["ep"] == "sql" else x["cnt"]
+
+        def again():
+            return copy.deepcopy(x)
+        steps = [dict(e) for e in case["h"]] + [again()]
+        ups = [i + 1 for i, v in enumerate(st["view"]) if v == "up"]
+        rng.shuffle(ups)
+        for p_ in ups:
+            steps += [{"a": "ProbeDown", "S": [], "p": p_}, again()]
+        for p_ in ups:
+            if st["alive"][p_ - 1]:
+                steps += [{"a": "ProbeUp", "S": [], "p": p_}, again()]
+        hs.append(steps)
+    return hs
+
+
 def histories_from_walks(cases, rng):
     """TLC walks: [env | Req r | PeerDies p (while pending) | Exec]*  ->  harness steps (PeerDies folded into dies)"""
     hs = []
     for case in cases:
         steps, view = [], {}
         pend = None
+        sticky = {} if rng.random() < 0.75 else None
+        again = None          # the first auto request on /sql (or flight) for a distributable class: re-issued verbatim after later environment steps
         for s in case["h"]:
             a = s["a"]
             if a == "Req":
-                pend = concretize(rng, s["r"], True)
+                pend = concretize(rng, s["r"], True, sticky)
             elif a == "Exec":
                 if pend is not None:
                     steps.append(pend)
+                    if again is None and sticky is not None and pend["mode"] == "auto" and pend["ep"] in ("sql", "flight", "both") \
+                            and pend["cls"] in ("scatter", "gather") and pend["fmt"] != "bad" and pend["tamper"] == "none":
+                        again = pend
                 pend = None
             elif a == "PeerDies" and pend is not None:
                 pend["dies"].append(s["p"])
                 pend["cnt"] = 1 if pend["ep"] == "sql" else pend["cnt"]
             else:
                 steps.append(dict(s))
+                if again is not None and rng.random() < 0.6:
+                    r2 = copy.deepcopy(again)
+                    r2["dies"] = []
+                    r2["cnt"] = 1 if r2["ep"] == "sql" else r2["cnt"]
+                    steps.append(r2)
         hs.append(steps)
     return hs
 
@@ -398,7 +445,11 @@ def judge(ctx, outs, hists, tag, what, budget=8, chunks=1, peers=NP):
             todo = todo[pos + 1:]
             rnd += 1
             if rnd > budget:
-                raise ToolError(f"trace validation {tag}: more than {budget} rejected histories in one chunk")
+                # enough rejected histories to report (each one is a VIOLATION with its own replay file); the rest of this
+                # chunk stays unexamined and is counted as such -- never a tool error, which would hide the verdict
+                log(f"[{ctx.pid}] trace validation {tag}/{k}: {budget + 1} histories rejected, {len(todo)} histories left unexamined")
+                ctx.add("histories_unexamined_after_rejections", len(todo))
+                break
         return n_ok, drifts, viols, runs
 
     with ThreadPoolExecutor(max_workers=chunks) as ex:
@@ -557,7 +608,8 @@ def run_family(ctx, P):
     probing = [c for c in res_n.cases if any(st["a"] in ("ProbeUp", "ProbeDown") for st in c["h"])]
     probing = rng.sample(probing, min(P["probing"], len(probing)))
     hs = (histories_from_states(ctx, res_s.cases, reqs, P["per_state"], rng) + histories_from_walks(res_w.cases, rng)
-          + histories_from_states(ctx, probing, reqs, P["per_state"], rng))
+          + histories_from_states(ctx, probing, reqs, P["per_state"], rng)
+          + flip_histories(res_s.cases, reqs, rng, P.get("flips", 40)))
     ctx.set("emitted", {"node_states": len(res_s.cases), "walks": len(res_w.cases), "request_alphabet": len(reqs),
                         "node_states_by_single_probes_replayed": len(probing)})
     # (R) replay on real nodes, (V) judged by TLC
